@@ -1170,6 +1170,58 @@ def _is_accumulation(ff: FuncFlow, n: T.Any) -> bool:
     return False
 
 
+def _helper_accumulation(ff: FuncFlow, n: T.Any, depth: int) -> T.Optional[T.Tuple[bool, str]]:
+    """Does node n call a followed helper (method, module function, closure) that accumulates?  (always?, helper name):
+    `always` = every non-raising path through the helper passes an accumulating statement (the loop body was extracted)."""
+    if depth <= 0:
+        return None
+    best: T.Optional[T.Tuple[bool, str]] = None
+    for c in ff.node_calls(n):
+        fn2 = None
+        summ = None
+        if isinstance(c.func, ast.Name) and c.func.id in ff.local_names:
+            for kind, what in ff.resolve_callable(c.func, n) or []:
+                if kind == 'nested':
+                    summ, _free = ff.closure_summary(what)
+                    fn2 = what
+        else:
+            cal = ff._callee(c)
+            if cal is not None and cal[3] is not ff.fn:
+                fn2 = cal[3]
+                summ = ff.an.summary(cal[1], cal[2], cal[3], ff.depth - 1)
+        if fn2 is None or summ is None or summ.ff is None:
+            continue
+        hf = summ.ff
+        ff.an.stack.append(id(fn2))
+        try:
+            accs = _acc_nodes(hf, depth - 1)
+        finally:
+            ff.an.stack.pop()
+        if not accs:
+            continue
+        avoid = {a.id for a in accs}
+        reach = hf.cfg.reachable([hf.cfg.entry], [hf.cfg.nodes[i] for i in avoid], edge_ok=lambda a, b, lab: lab != 'exc')
+        always = hf.cfg.exit_return.id not in reach
+        name = getattr(fn2, 'name', 'lambda')
+        if best is None or (always and not best[0]):
+            best = (always, name)
+    return best
+
+
+def _acc_nodes(ff: FuncFlow, depth: int = 2, only: T.Optional[T.Set[int]] = None) -> T.List[T.Any]:
+    out = []
+    for n in ff.cfg.nodes:
+        if only is not None and n.id not in only:
+            continue
+        if _is_accumulation(ff, n):
+            out.append(n)
+        else:
+            h = _helper_accumulation(ff, n, depth)
+            if h is not None and h[0]:
+                out.append(n)
+    return out
+
+
 def loop_verdicts(ff: FuncFlow, source: str, _depth: int = 2) -> T.List[T.Tuple[str, str, T.Any]]:
     """For every `for` loop whose iterable carries `source` and whose body accumulates: (ok|violation|undecided, message, node).
     Violation = some path through one iteration (not by an exception) reaches the next iteration, leaves the loop or
@@ -1183,7 +1235,12 @@ def loop_verdicts(ff: FuncFlow, source: str, _depth: int = 2) -> T.List[T.Tuple[
         if source not in ff.origins_at(loop.iter, head):
             continue
         body_nodes = {n.id for n in cfg.nodes if n.ast is not None and any(n.ast is x for st in loop.body for x in ast.walk(st))}
-        accs = [n for n in cfg.nodes if n.id in body_nodes and _is_accumulation(ff, n)]
+        accs = _acc_nodes(ff, 2, body_nodes)
+        partial = [h[1] for h in (_helper_accumulation(ff, n, 2) for n in cfg.nodes if n.id in body_nodes) if h is not None and not h[0]]
+        if not accs and partial:
+            out.append(('violation', f'the body of the loop over `{short(loop.iter, 50)}` hands each element to {partial[0]}(), which can return without '
+                        'passing any accumulating statement: that element is silently dropped', loop))
+            continue
         if not accs:
             # the body hands the element to a helper / closure: not followed here
             out.append(('undecided', f'{ff.qual}: the loop over `{short(loop.iter, 50)}` has no accumulating statement the rule recognises '
